@@ -11,7 +11,7 @@ PROP = {
     "rule": HIST_RULE + " Emphasis C17: totals after many operations incl. repeated puts, deletes of absent peers, expiry of whole swarms.",
     "tags": HIST_TAGS, "reasons": HIST_REASONS, "assumptions": HIST_ASSUMPTIONS,
     "trivial_tags": [], "min_tags": 4,
-    "explanation": "Coq theorems: in every reachable state of the memory store each shard's uint64 counters equal a recount of that shard modulo 2^64 (no decrement ever happens on a zero counter), proved by invariant over all histories; Redis counters equal the specification's totals after every sequential history (Proofs/RedisP.v). Tied to the code by reading, after generated histories, the per-shard counters, a recount through an overlay shim (memory) or directly from miniredis (Redis), and the Prometheus gauges after populateProm.",
+    "explanation": "mem_prom_exact (memory store: the EXPORTED totals - swarms, seeders, leechers summed over all shards by populateProm - equal, after ANY history, the number of tracked swarms and the memberships stored in the specification, as uint64; rests on mem_swarms_at_home: every swarm lives in the shard its infohash and family select and nowhere else, and on generic lemmas about sums over maps in bijection / cut into classes). Coq theorems: in every reachable state of the memory store each shard's uint64 counters equal a recount of that shard modulo 2^64 (no decrement ever happens on a zero counter), proved by invariant over all histories; Redis counters equal the specification's totals after every sequential history (Proofs/RedisP.v). Tied to the code by reading, after generated histories, the per-shard counters, a recount through an overlay shim (memory) or directly from miniredis (Redis), and the Prometheus gauges after populateProm.",
 }
 
 CLAIM = {
